@@ -87,6 +87,15 @@ def call_contract(ex, module, qualname, argskw, node, self_obj=None):
     sub.fname = ex.fname
     sub.env = dict(bound)
     sub.old_env = dict(bound)
+    if ex.spec_mode:
+        # inside a specification expression or a comprehension body: the callee must have a
+        # functional contract `ensures(result == E)`; E is used as the value (total semantics,
+        # preconditions are not checked here -- see the comprehension note in DESIGN 2.1)
+        for label, en in c.ensures:
+            if isinstance(en, ast.Compare) and len(en.ops) == 1 and isinstance(en.ops[0], ast.Eq) \
+                    and isinstance(en.left, ast.Name) and en.left.id == 'result' and not c.modifies:
+                return sub.ev(en.comparators[0])
+        raise Unsupported('call of %s in a specification context needs a contract of the form result == E' % key)
     # precondition
     for j, r in enumerate(c.requires):
         ex.oblige('pre-call', as_bool(sub.ev(r)), label='pre-call[%s].%d@%s' % (qualname, j, getattr(node, 'lineno', '?')))
@@ -117,12 +126,30 @@ def call_contract(ex, module, qualname, argskw, node, self_obj=None):
             raise Unsupported('callee %s modifies a non-object argument %s' % (key, pname))
         from .mutate import note_param_mutation
         note_param_mutation(ex, actual, node)
-    res = result_value(ex, c, key)
+    # a functional postcondition `result == E` gives the result directly (no fresh constant)
+    res = None
+    direct = None
+    if not c.modifies and (c.ret or 'val') in ('val', 'str', 'int', 'bool', 'list', 'tuple', 'atom', 'optstr'):
+        for label, en in c.ensures:
+            if label != 'define' and isinstance(en, ast.Compare) and len(en.ops) == 1 and isinstance(en.ops[0], ast.Eq) \
+                    and isinstance(en.left, ast.Name) and en.left.id == 'result':
+                sub.env = dict(bound)
+                try:
+                    cand = sub.ev(en.comparators[0])
+                except Unsupported:
+                    cand = None
+                if isinstance(cand, V):
+                    res, direct = V(vl.simp(cand.t)), en
+                    break
+    if res is None:
+        res = result_value(ex, c, key)
     sub.env = dict(bound)
     sub.env['result'] = res
     sub.old_env = old_bound
     for label, en in c.ensures:
-        post = z3.simplify(as_bool(sub.ev(en)))
+        if en is direct:
+            continue
+        post = vl.simp(as_bool(sub.ev(en)))
         if not ex.spec_mode:
             post = split_ite(ex, post, 3)
         ex.assume(post)
@@ -144,8 +171,8 @@ def split_ite(ex, post, depth):
         if z3.is_app(inner) and inner.decl().kind() == z3.Z3_OP_ITE:
             c, a, b = inner.arg(0), inner.arg(1), inner.arg(2)
             if ex.branch(c):
-                return split_ite(ex, z3.simplify(other == wrap(a)), depth - 1)
-            return split_ite(ex, z3.simplify(other == wrap(b)), depth - 1)
+                return split_ite(ex, vl.simp(other == wrap(a)), depth - 1)
+            return split_ite(ex, vl.simp(other == wrap(b)), depth - 1)
     return post
 
 
@@ -261,7 +288,7 @@ def verify_function(eng, key, c, fdef=None, module=None):
 def run_path(ex, c, body, res):
     # parameters
     for p, ty in c.params:
-        ex.env[p] = ex.eng.make_param(p, ty, ex.assume)
+        ex.env[p] = ex.eng.make_param(p, ty, ex.assume, ex)
         ex.roots[p] = {p}
     ex.param_names = [p for p, _ in c.params]
     ex.old_env = {}
